@@ -119,6 +119,24 @@ def fields (fmtFloat : UInt32 → Bytes) (a : Alignment) : List Bytes :=
 /-- one alignment line, without line terminator -/
 def samLine (fmtFloat : UInt32 → Bytes) (a : Alignment) : Bytes := tabJoin (fields fmtFloat a)
 
+
+/-! ### the lines of a SAM text (section 1: "each line is TAB-delimited"; lines end in LF, or CR LF) -/
+
+/-- a line without the CR of a CR LF line end: one final CR is dropped -/
+def dropCR : Bytes → Bytes
+  | [] => []
+  | [c] => if c = 13 then [] else [c]
+  | c :: d :: rest => c :: dropCR (d :: rest)
+
+/-- scanning left to right with the bytes of the current line in `cur`: an LF ends the line; what is left
+at the end of the text is a line of its own unless it is empty -/
+def linesFrom : Bytes → Bytes → List Bytes
+  | [], cur => if cur.isEmpty then [] else [dropCR cur]
+  | c :: rest, cur => if c = 10 then dropCR cur :: linesFrom rest [] else linesFrom rest (cur ++ [c])
+
+/-- the lines of a text, line ends removed -/
+def textLines (s : Bytes) : List Bytes := linesFrom s []
+
 /-! ### the grammar's character classes and ranges (section 1.4, 1.5) -/
 
 /-- QNAME `[!-?A-~]{1,254}` -/
